@@ -217,6 +217,15 @@ func (tc *typechecker) checkConstantDeclaration(node *ast.Const) {
 			constType = ti.Type
 		} else {
 			constType = typ.Type
+			// The value of a typed constant is represented with its type:
+			// an integer constant is an integer also if it is declared with
+			// a floating point literal and a floating point constant is
+			// rounded to its type.
+			if constValue != nil {
+				if c, err := constValue.representedBy(constType); err == nil && c != nil {
+					constValue = c
+				}
+			}
 		}
 
 		// Declare the constant in the current block/scope.
